@@ -14,7 +14,7 @@ PAYLOADS = [
     "'+str(PWNED())+'", '"+str(PWNED())+"', "\\'+str(PWNED())+\\'", "'))+str(PWNED())+str(('", "' or PWNED() or '", "')==PWNED() or ('",
     "\\", "\\\\", "\\'", "'", '"', "'''", '"""', "\\n", "\\x27+PWNED()+\\x27", "\\u0027+PWNED()+\\u0027", "\\N{APOSTROPHE}+PWNED()+\\N{APOSTROPHE}",
     "%s" , "%(x)s", "{0}", "{PWNED()}", "{{", "}}", "${PWNED()}", "`PWNED()`", "__import__('os').system('true')", "\t", "\r", "\x00", "\x1b[0m",
-    "a' if PWNED() else 'b", '\\"', '\\" or PWNED()) #', 'x\\"+str(PWNED())+"', '\\\\"+str(PWNED())+"', "{PWNED()}{", "}{PWNED()}", "#", "' #", "';PWNED();'", "\\\n", "𝔘nicode", " ", "\u0085", "' \\", "\\' \\\"", ")", "(", "[", "]", ",",
+    "a' if PWNED() else 'b", '\\"', '\\" or PWNED()) #', 'x\\"+str(PWNED())+"', '\\\\"+str(PWNED())+"', "{PWNED()}{", "}{PWNED()}", "s1\rPWNED() #", "s1\rimport os #", 'A" weighted 1, "B', 'x" or c != "', "x' or c != '", "a'b", "#", "' #", "';PWNED();'", "\\\n", "𝔘nicode", " ", "\u0085", "' \\", "\\' \\\"", ")", "(", "[", "]", ",",
 ]
 
 
